@@ -328,7 +328,7 @@ impl VisitMut for Passes {
 
 // ---- R-HOISTARGS: at configured call sites the (side-effect free) argument expressions are bound to locals first, so
 // that contract text can name them:  f(a, b)  ==>  let v_hK_0 = a; let v_hK_1 = b; f(v_hK_0, v_hK_1)
-struct FindCall<'a> { method: &'a str, found: Option<Vec<Expr>>, site: usize, impure: bool }
+struct FindCall<'a> { method: &'a str, found: Option<Vec<Expr>>, site: usize, impure: bool, recv: bool, recv_expr: Option<Expr> }
 impl<'a> VisitMut for FindCall<'a> {
     fn visit_expr_mut(&mut self, e: &mut Expr) {
         if self.found.is_some() { return; }
@@ -341,6 +341,17 @@ impl<'a> VisitMut for FindCall<'a> {
             Expr::Call(c) => matches!(&*c.func, Expr::Path(p) if p.path.segments.last().map(|s| s.ident == self.method).unwrap_or(false)),
             _ => false,
         };
+        if is_target && self.recv {
+            if let Expr::MethodCall(m) = e {
+                let txt = norm(&m.receiver);
+                if txt.contains('?') || txt.contains("return") { self.impure = true; }
+                let id = Ident::new(&format!("v_h{}_r", self.site), proc_macro2::Span::call_site());
+                self.recv_expr = Some((*m.receiver).clone());
+                m.receiver = Box::new(parse_quote!( #id ));
+                self.found = Some(vec![]);
+                return;
+            }
+        }
         if is_target {
             let args: &mut syn::punctuated::Punctuated<Expr, Token![,]> = match e { Expr::MethodCall(m) => &mut m.args, Expr::Call(c) => &mut c.args, _ => unreachable!() };
             let mut olds = vec![];
@@ -357,7 +368,7 @@ impl<'a> VisitMut for FindCall<'a> {
         visit_mut::visit_expr_mut(self, e);
     }
 }
-struct Hoister<'a> { method: &'a str, site: usize, log: Vec<String>, errors: Vec<String> }
+struct Hoister<'a> { method: &'a str, recv: bool, site: usize, log: Vec<String>, errors: Vec<String> }
 impl<'a> VisitMut for Hoister<'a> {
     fn visit_block_mut(&mut self, b: &mut Block) {
         let stmts = std::mem::take(&mut b.stmts);
@@ -365,12 +376,16 @@ impl<'a> VisitMut for Hoister<'a> {
         for mut st in stmts {
             let compound_loop = matches!(&st, Stmt::Expr(Expr::ForLoop(_) | Expr::While(_) | Expr::Loop(_) | Expr::Block(_) | Expr::Match(_), _));
             if !compound_loop {
-                let mut fc = FindCall { method: self.method, found: None, site: self.site, impure: false };
+                let mut fc = FindCall { method: self.method, found: None, site: self.site, impure: false, recv: self.recv, recv_expr: None };
                 match &mut st {
                     Stmt::Expr(Expr::If(ife), _) => { fc.visit_expr_mut(&mut ife.cond); }
                     Stmt::Expr(e, _) => { fc.visit_expr_mut(e); }
                     Stmt::Local(l) => { if let Some(init) = &mut l.init { fc.visit_expr_mut(&mut init.expr); } }
                     _ => {}
+                }
+                if let Some(r) = fc.recv_expr.take() {
+                    let id = Ident::new(&format!("v_h{}_r", self.site), proc_macro2::Span::call_site());
+                    out.push(parse_quote!( let #id = #r; ));
                 }
                 if let Some(olds) = fc.found {
                     if fc.impure { self.errors.push(format!("UNSUPPORTED hoist site {}: argument with side effect", self.site)); }
@@ -551,9 +566,13 @@ impl VisitMut for Annot {
             let stmts = std::mem::take(&mut b.stmts);
             let mut out = vec![];
             for st in stmts {
-                let txt: String = norm(&st);
+                // simple statements are matched on their whole text; an `if` statement on its condition only
+                let (txt, is_compound): (String, bool) = match &st {
+                    Stmt::Expr(Expr::If(ife), _) => (format!("if{}", norm(&ife.cond)), false),
+                    Stmt::Expr(Expr::ForLoop(_) | Expr::While(_) | Expr::Loop(_) | Expr::Match(_) | Expr::Block(_), _) => (String::new(), true),
+                    other => (norm(other), false),
+                };
                 let mut before = vec![]; let mut after = vec![];
-                let is_compound = matches!(&st, Stmt::Expr(Expr::ForLoop(_) | Expr::While(_) | Expr::Loop(_) | Expr::If(_) | Expr::Match(_) | Expr::Block(_), _));
                 for (is_after, sub, marker, matched) in self.anchors.iter_mut() {
                     if *matched { continue; }
                     let subn: String = sub.split_whitespace().collect::<Vec<_>>().join("");
@@ -1070,7 +1089,8 @@ fn process_fn(cx: &mut Ctx, vis: &Visibility, sig: &Signature, block: &Block, in
     }
     for (f, method) in cx.o.hoist.iter() {
         if *f != name || method == "@ret" { continue; }
-        let mut h = Hoister { method: method.as_str(), site: 0, log: vec![], errors: vec![] };
+        let (mname, recv) = match method.strip_suffix("@recv") { Some(m) => (m, true), None => (method.as_str(), false) };
+        let mut h = Hoister { method: mname, recv, site: if recv { 100 } else { 0 }, log: vec![], errors: vec![] };
         h.visit_block_mut(&mut block);
         cx.p.log.extend(h.log);
         cx.errors.extend(h.errors);
